@@ -117,6 +117,19 @@ func c07Inputs(tier string) []decInput {
 		addStructured(byte(i), false, lenForm{0, 1}, 3, max)
 		addStructured(byte(i), true, lenForm{0, 1}, 2, max)
 	}
+	// a configured maximum BELOW the 7-bit length class: lengths the header byte itself carries must be compared with it too
+	for _, b0 := range []byte{0x82, 0x81, 0x02} {
+		for _, masked := range []bool{false, true} {
+			for _, lf := range []lenForm{{0, 0}, {0, 99}, {0, 100}, {0, 101}, {0, 125}, {2, 100}, {2, 101}, {2, 126}, {8, 100}, {8, 101}} {
+				for pres := 0; pres < 4; pres++ {
+					if pres == 1 && lf.decl == 0 {
+						continue
+					}
+					addStructured(b0, masked, lf, pres, 100)
+				}
+			}
+		}
+	}
 	// 64-bit encodings that are legitimate under a larger maximum
 	for _, d := range []uint64{65535, 65536, 70000, 70001} {
 		for pres := 1; pres < 4; pres++ {
@@ -440,7 +453,7 @@ func C07(tier string) *engine.Report {
 	tot.Add(c07DFS(tier, "decode").Run(), rep)
 	tot.Add(c07DFS(tier, "roundtrip").Run(), rep)
 	tot.Add(c07DFS(tier, "reuse").Run(), rep)
-	tot.Fill(rep, "enumerated inputs (all strings <=4 over a 9-byte alphabet; structured product of first byte x mask x length encoding x declared length incl. >= 2^63 x payload presence; two frames back to back) "+
+	tot.Fill(rep, "enumerated inputs (all strings <=4 over a 9-byte alphabet; structured product of first byte x mask x length encoding x declared length incl. >= 2^63 x payload presence, under maxima 200, 70000 and 100 (below the 7-bit length class); two frames back to back) "+
 		"x cut sets (whole, every single cut, pairs on short inputs, byte by byte) through the real FrameCodec.Decode, compared with an independent parser; plus encoder->decoder round trips for all 256 first bytes x mask x 8 length classes on a fresh Frame, and 3 first bytes x mask x 8 classes on a Frame that carried one or two earlier payloads of every class. "+
 		"non-trivial = the input was cut at least once, or a round trip", 0)
 	rep.Coverage["inputs"] = len(c07Inputs(tier))
